@@ -20,6 +20,7 @@ REPO = "/repo"
 VERIF = "/verif"
 ROOT = "/tmp/fqmut"
 ALL = ["C%02d" % i for i in range(1, 20)]
+HARVEST = False
 
 
 def sh(cmd, cwd=None, env=None, timeout=7200):
@@ -93,7 +94,19 @@ def run_mutant(slot, m, checks, tier, skip_tests):
         if viol:
             try:
                 path = viol[0].split("replay=")[1].strip()
-                fired[c]["replay_sig"] = json.load(open(path)).get("signature", "")
+                doc = json.load(open(path))
+                fired[c]["replay_sig"] = doc.get("signature", "")
+                # harvest the shrunk case as a sentinel for the seconds-long regress tier of /verif (only cases produced by
+                # the generators, not the regress files themselves); it must hold on the unchanged tree, which every
+                # quick run re-checks
+                if HARVEST and "/regress/" not in path and c in m.get("expect", [c]):
+                    d = f"{VERIF}/regress/{c}"
+                    os.makedirs(d, exist_ok=True)
+                    dst = f"{d}/sentinel_{m['id'].replace('/', '_')}.json"
+                    if not os.path.exists(dst):
+                        doc["sentinel_for"] = f"{m['id']}: {m.get('note', '')[:200]}"
+                        doc.pop("seed", None)
+                        json.dump(doc, open(dst, "w"), indent=1)
             except Exception:
                 pass
     res["fired"] = fired
@@ -113,6 +126,9 @@ def main():
         elif a[i] == "--tier": opt["tier"] = a[i + 1]; i += 2
         elif a[i] == "--jobs": opt["jobs"] = int(a[i + 1]); i += 2
         elif a[i] == "--skip-tests": opt["skip_tests"] = True; i += 1
+        elif a[i] == "--harvest":
+            global HARVEST
+            HARVEST = True; i += 1
         elif a[i] == "--patch": opt["patch"] = os.path.abspath(a[i + 1]); i += 2
         elif a[i] == "--id": opt["id"] = a[i + 1]; i += 2
         elif a[i] == "--expect": opt["expect"] = a[i + 1].split(","); i += 2
